@@ -131,6 +131,8 @@ def config_get(ctx: click.Context, key: str) -> None:
         thai-lint config get greeting
     """
     cfg = ctx.obj["config"]
+    if key not in cfg:
+        key = key.replace("-", "_")  # same normalization as on load
 
     if key not in cfg:
         click.echo(f"Configuration key not found: {key}", err=True)
@@ -202,6 +204,9 @@ def config_set(ctx: click.Context, key: str, value: str) -> None:
         thai-lint config set max_retries 5
     """
     cfg = ctx.obj["config"]
+    # Keys are normalized on load (hyphens become underscores); write them the same way so that
+    # validation sees the key that will be read back
+    key = key.replace("-", "_")
     converted_value = _convert_value_type(value)
     cfg[key] = converted_value
 
